@@ -552,6 +552,25 @@ fn run_case(out: &mut impl Write, text: &str, shell: Shell, o: &Opts) -> std::io
             s.push_str("))");
             writeln!(buf, "{}", s)?;
         }
+        if want(o, "subraw") {
+            // every within-word regex: its raw automaton and what minimize() makes of it
+            let mut subs: BTreeMap<usize, &Regex> = BTreeMap::new();
+            collect_pool(&r, &pool, &mut subs);
+            let mut s = String::from("\x01SUBRAW (");
+            for (idx, sub) in &subs {
+                match DFA::from_regex_raw((*sub).clone(), &pool) {
+                    Ok(raw) => {
+                        let min = raw.clone().minimize();
+                        let _ = write!(s, "({} {} {})", idx, show_dfa(&raw), show_dfa(&min));
+                    }
+                    Err(e) => {
+                        let _ = write!(s, "({} (err {}))", idx, show_error(&e));
+                    }
+                }
+            }
+            s.push(')');
+            writeln!(buf, "{}", s)?;
+        }
         if want(o, "regexdot") {
             let mut dot: Vec<u8> = vec![];
             r.to_dot(&mut dot, &pool)?;
